@@ -256,6 +256,8 @@ def run_case(case, ctx):
 def gen_case(rng):
     how = rng.choice(['listby', 'listby', 'groupby', 'pivot', 'pivot'])
     n = rng.choice([0, 1, 2, 3, 4, 5, 6, 8, 10]) if how != 'pivot' else rng.choice([0, 1, 2, 3, 4, 5, 6, 8, 10, 1, 2, 3, 4, 5, 6, 8, 10])
+    if how == 'pivot' and rng.random() < 0.02:
+        n = rng.choice([70, 140])            # a few long tables for pivot too
     if how != 'pivot' and rng.random() < 0.02:
         n = rng.choice([256, 300, 520])       # long tables: any size-dependent path of the grouping code
     if how == 'pivot':
